@@ -1104,4 +1104,10 @@ def recoverEpoch (s : Store) (existingLargest : Nat) : Store :=
   let e := max existingLargest (s.globalEpoch + 1)
   { s with globalEpoch := e, clusters := s.clusters.map fun c => { c with epoch := e } }
 
+/-- `MetaStore::restore` (`PUT /metadata`: a replica receiving the master's metadata, a broker
+loading its meta file): the incoming metadata replaces the store unless the store is ahead of it.
+The version check is not modelled (one version string in the crate). -/
+def restoreInto (s other : Store) : Store × R Unit :=
+  if s.globalEpoch > other.globalEpoch then (s, .err .smallEpoch) else (other, .ok ())
+
 end Um.Broker
